@@ -134,7 +134,7 @@ AllMasks(n) == { s \in SUBSET Grid(n) : s # {} }
 Rep2 == { Grid(2), {<<0,0>>, <<0,1>>, <<1,0>>}, {<<0,1>>}, {<<0,0>>, <<1,1>>}, {<<1,0>>, <<1,1>>} }        \* full, L, single, diagonal, row
 Asym3 == { {<<0,0>>, <<0,1>>, <<0,2>>, <<1,0>>}, {<<0,1>>, <<1,1>>, <<2,2>>}, {<<0,0>>, <<1,2>>, <<2,1>>}, Grid(3) \ {<<0,0>>},
            {<<1,0>>, <<1,1>>, <<1,2>>, <<0,1>>}, {<<0,2>>, <<2,0>>, <<2,1>>} }
-Offsets == { <<0, 0>>, <<4, 0>>, <<0, -4>>, <<4, 4>> }
+Offsets == { <<0, 0>>, <<4, 0>>, <<0, -4>>, <<4, 4>>, <<4, -4>> }       \* incl. a direction on the anti-diagonal (x = -y)
 Init ==
     /\ pc = "assemble" /\ layer = 1 /\ pair = <<1, 1>>
     /\ \/ \E m1 \in AllMasks(2), m2 \in Rep2, g1 \in BOOLEAN, g2 \in BOOLEAN, o1 \in {<<0,0>>, <<0,-4>>}, o2 \in Offsets, nl \in 1..2 :
@@ -143,8 +143,8 @@ Init ==
                        heights |-> IF nl = 1 THEN <<1>> ELSE <<0, 1>>]
        \/ \E m1 \in Asym3 \cup {Grid(3)}, g1 \in BOOLEAN, o1 \in {<<0,0>>, <<4,4>>} :
              cfg = [nw |-> 1, masks |-> <<m1>>, n |-> <<3>>, dia |-> <<8>>, lgs |-> <<g1>>, off |-> <<o1>>, heights |-> <<0, 1>>]
-       \/ \E m1 \in Rep2, m2 \in {Grid(2), {<<0,0>>, <<0,1>>, <<1,0>>}}, o1 \in {<<0,0>>, <<0,-4>>}, o2 \in {<<4,0>>, <<4,4>>} :
-             \* two elevated layers, natural guide stars only (translations must not accumulate from one layer to the next)
+       \/ \E m1 \in Rep2, m2 \in {Grid(2), {<<0,0>>, <<0,1>>, <<1,0>>}}, o1 \in {<<0,0>>, <<0,-4>>}, o2 \in {<<4,0>>, <<4,4>>, <<4,-4>>, <<-4,4>>} :
+             \* two elevated layers, natural guide stars only (incl. directions on the anti-diagonal, x = -y) (translations must not accumulate from one layer to the next)
              cfg = [nw |-> 2, masks |-> <<m1, m2>>, n |-> <<2, 2>>, dia |-> <<8, 8>>, lgs |-> <<FALSE, FALSE>>, off |-> <<o1, o2>>, heights |-> <<1, 2>>]
        \/ \E m1 \in Rep2, g1 \in BOOLEAN, g2 \in BOOLEAN, o1 \in {<<0,0>>, <<0,-4>>}, o2 \in {<<0,0>>, <<4,4>>}, swap \in BOOLEAN :
              \* sensors with DIFFERENT sub-aperture sizes on the same telescope: a 2x2 grid of 8 hu cells and one 16 hu cell
